@@ -48,7 +48,7 @@ manifest = {
     "hooks": {
         "guard": "--cfg varpulis_verif",
         "enable": "RUSTFLAGS='--cfg varpulis_verif' (set in /verif/harness/.cargo/config.toml; every harness crate is built through it)",
-        "baseline_off_cmd": "cd /repo && cargo test --workspace --no-fail-fast --offline",
+        "baseline_off_cmd": "cd /repo && (cargo nextest run --workspace --no-fail-fast --test-threads 8 --offline || cargo test --workspace --no-fail-fast --offline)",
         "source_commits": hooks_commits,
         "add_only": True,
     },
